@@ -45,6 +45,19 @@ Theorem C14_views :
 Proof. exact norm_views. Qed.
 Print Assumptions C14_views.
 
+(** The ChainState that as_chain_state hands to the validators (current height, funding,
+    double-spend and closing depth) is part of that view, and it is the same closing depth
+    as the monitor's own getter reports whenever at most one kind of close is recorded. *)
+Theorem C14_chain_state :
+  forall m m' : mon, norm m = norm m' -> chain_state (m_state m) = chain_state (m_state m').
+Proof. exact norm_chain_state. Qed.
+Print Assumptions C14_chain_state.
+Theorem C14_chain_state_getters :
+  forall s : state, (mutual_h s = None \/ unilateral_h s = None) ->
+    chain_state s = (height s, funding_depth s, double_spent_depth s, closing_depth s).
+Proof. exact chain_state_getters. Qed.
+Print Assumptions C14_chain_state_getters.
+
 (** Processing an admissible history never aborts: neither a connection nor a disconnection. *)
 Theorem C14_no_abort :
   forall (g : cfg) (h0 : N) (ops : list op),
